@@ -343,6 +343,15 @@ type ctxProbe struct {
 	mu   sync.Mutex
 	feat map[string]bool
 	obs2 string
+	// the next user's operation is under way: the write hooks of the sending peer record what they see
+	armed bool
+	w     []string
+	// contexts (by address) that a read loop of this run has held, i.e. that have been through the pool's hands
+	seen map[string]bool
+	// the context (by address) handed to the next user's outgoing push
+	pushCtx string
+	// messages taken up by the read loops of the serving peer (a push leaves no other trace when nothing handles it)
+	srvReads int
 }
 
 var cprobe ctxProbe
@@ -388,6 +397,11 @@ func (c *CX) One(arg *Arg) (*Res, *erpc.Status) {
 	return &Res{Tag: F(arg.Tag)}, nil
 }
 
+// Fail is a previous use that ends with the handler's error.
+func (c *CX) Fail(arg *Arg) (*Res, *erpc.Status) {
+	return nil, erpc.NewStatus(1002, "stale status of a failed call", "x")
+}
+
 func (c *CX) Two(arg *Arg) (*Res, *erpc.Status) {
 	v := ctxView(c.CallCtx)
 	cprobe.mu.Lock()
@@ -409,6 +423,66 @@ func (c *CXP) Two(arg *Arg) *erpc.Status {
 	return nil
 }
 
+// Fail is a previous use that ends with the push handler's error.
+func (c *CXP) Fail(arg *Arg) *erpc.Status {
+	return erpc.NewStatus(1003, "stale status of a failed push", "x")
+}
+
+// wctxView is everything a write hook can see through the WriteCtx it is given (the sequence number and the size of the
+// written frame depend on how many messages the session has sent and are left out).
+func wctxView(c erpc.WriteCtx) string {
+	st := "nil"
+	if s := c.Status(); s != nil {
+		st = fmt.Sprintf("%d", s.Code())
+	}
+	o := c.Output()
+	ost := "nil"
+	if s := o.Status(); s != nil {
+		ost = fmt.Sprintf("%d", s.Code())
+	}
+	_, sw := c.Swap().Load("stale")
+	return fmt.Sprintf("status=%s statusok=%v swaplen=%d swapleft=%v out(mtype=%d method=%q status=%s statusok=%v meta=%q bodynil=%v codec=%d pipe=%d ctxbg=%v)",
+		st, c.StatusOK(), c.Swap().Len(), sw, o.Mtype(), o.ServiceMethod(), ost, o.StatusOK(), o.Meta().QueryString(), o.Body() == nil, o.BodyCodec(),
+		o.XferPipe().Len(), o.Context() == context.Background())
+}
+
+// ctxWatch is a plugin of both peers of the pooled-context cases. It changes nothing: its write hooks record what
+// they are shown while the next user's operation is under way (sending side only), its pre-read hook notes which
+// contexts the read loops take from the pool.
+type ctxWatch struct{ sending bool }
+
+func (w *ctxWatch) Name() string { return "verif-ctxwatch" }
+func (w *ctxWatch) hook(name string, c erpc.WriteCtx) *erpc.Status {
+	cprobe.mu.Lock()
+	defer cprobe.mu.Unlock()
+	if !w.sending || !cprobe.armed {
+		return nil
+	}
+	cprobe.w = append(cprobe.w, name+":"+wctxView(c))
+	if name == "PreWritePush" {
+		cprobe.pushCtx = fmt.Sprintf("%p", c)
+	}
+	return nil
+}
+func (w *ctxWatch) PreWriteCall(c erpc.WriteCtx) *erpc.Status  { return w.hook("PreWriteCall", c) }
+func (w *ctxWatch) PostWriteCall(c erpc.WriteCtx) *erpc.Status { return w.hook("PostWriteCall", c) }
+func (w *ctxWatch) PreWritePush(c erpc.WriteCtx) *erpc.Status  { return w.hook("PreWritePush", c) }
+func (w *ctxWatch) PostWritePush(c erpc.WriteCtx) *erpc.Status { return w.hook("PostWritePush", c) }
+func (w *ctxWatch) PreReadHeader(c erpc.PreCtx) error {
+	cprobe.mu.Lock()
+	if cprobe.seen != nil {
+		cprobe.seen[fmt.Sprintf("%p", c)] = true
+	}
+	if !w.sending {
+		cprobe.srvReads++
+	}
+	cprobe.mu.Unlock()
+	return nil
+}
+
+// ctxBadOps are the previous uses that end not OK (spec/Pool.tla CtxBad).
+var ctxBadOps = map[string]bool{"callerr": true, "callnotfound": true, "callbadbody": true, "pusherr": true, "pushnotfound": true, "badmtype": true}
+
 func (d *dataRun) ctxCase(feats []string, next string, out map[string]interface{}) {
 	prev := runtime.GOMAXPROCS(1)
 	defer runtime.GOMAXPROCS(prev)
@@ -416,9 +490,29 @@ func (d *dataRun) ctxCase(feats []string, next string, out map[string]interface{
 	for _, x := range feats {
 		f[x] = true
 	}
+	var bad []string
+	for _, x := range feats {
+		if ctxBadOps[x] {
+			bad = append(bad, x)
+		}
+	}
+	recycledPush := false
+	// everything the previous operation set going has come to rest (its contexts are back in the pool)
+	settle := func() {
+		for i := 0; i < 20; i++ {
+			runtime.Gosched()
+		}
+		time.Sleep(500 * time.Microsecond)
+	}
 	run := func(withFirst bool) (string, string) {
-		srv := erpc.NewPeer(erpc.PeerConfig{})
-		cli := erpc.NewPeer(erpc.PeerConfig{})
+		// the pool is emptied first (the read loops of earlier sessions have returned their contexts by now; two
+		// collections drop what a sync.Pool holds): every context this run meets is either constructed for it or has
+		// been used by it, and the reference run works on freshly constructed contexts only
+		settle()
+		runtime.GC()
+		runtime.GC()
+		srv := erpc.NewPeer(erpc.PeerConfig{}, &ctxWatch{})
+		cli := erpc.NewPeer(erpc.PeerConfig{}, &ctxWatch{sending: true})
 		srv.RouteCall(new(CX))
 		srv.RoutePush(new(CXP))
 		cli.RouteCall(new(CX))
@@ -431,9 +525,10 @@ func (d *dataRun) ctxCase(feats []string, next string, out map[string]interface{
 			}
 		}()
 		n := d.rnd.Int31()
-		cs, ss, _, _ := connectPeers(cli, srv, fmt.Sprintf("XC%d", n), fmt.Sprintf("XS%d", n))
+		cs, ss, ca, _ := connectPeers(cli, srv, fmt.Sprintf("XC%d", n), fmt.Sprintf("XS%d", n))
 		cprobe.mu.Lock()
 		cprobe.feat, cprobe.obs2 = f, ""
+		cprobe.armed, cprobe.w, cprobe.seen, cprobe.pushCtx, cprobe.srvReads = false, nil, map[string]bool{}, "", 0
 		cprobe.mu.Unlock()
 		if withFirst {
 			var st []erpc.MessageSetting
@@ -467,7 +562,53 @@ func (d *dataRun) ctxCase(feats []string, next string, out map[string]interface{
 				cprobe.obs2 = ""
 				cprobe.mu.Unlock()
 			}
+			// previous uses that end not OK, in the order given
+			for _, op := range bad {
+				cprobe.mu.Lock()
+				reads := cprobe.srvReads
+				cprobe.mu.Unlock()
+				// (a push is handled behind the sender's back: it has been taken up once the serving read loop asks for the next message)
+				pushed := func() {
+					WaitUntil(200*time.Millisecond, func() bool { cprobe.mu.Lock(); defer cprobe.mu.Unlock(); return cprobe.srvReads > reads })
+				}
+				switch op {
+				case "callerr":
+					cs.Call("/cx/fail", &Arg{Tag: "bad"}, new(Res))
+				case "callnotfound":
+					cs.Call("/cx/nosuch", &Arg{Tag: "bad"}, new(Res))
+				case "callbadbody":
+					cs.Call("/cx/one", "not an object", new(Res), erpc.WithBodyCodec('j'))
+				case "pusherr":
+					cs.Push("/cxp/fail", &Arg{Tag: "bad"})
+					pushed()
+				case "pushnotfound":
+					cs.Push("/cxp/nosuch", &Arg{Tag: "bad"})
+					pushed()
+				case "badmtype":
+					// a well-formed frame of a type no session serves, written straight onto the connection: the serving session
+					// ends; the next user works on a new session of the same two peers
+					ca.Write(packFrame(9, 77, "/cx/one", &Arg{Tag: "bad"}, nil))
+					WaitUntil(time.Second, func() bool {
+						select {
+						case <-ss.CloseNotify():
+							return true
+						default:
+							return false
+						}
+					})
+					settle()
+					n2 := d.rnd.Int31()
+					cs, ss, ca, _ = connectPeers(cli, srv, fmt.Sprintf("XC%d", n2), fmt.Sprintf("XS%d", n2))
+				}
+				settle()
+			}
+			cprobe.mu.Lock()
+			cprobe.obs2 = ""
+			cprobe.mu.Unlock()
 		}
+		cprobe.mu.Lock()
+		cprobe.armed = true
+		cprobe.mu.Unlock()
 		reply := ""
 		if next == "call" {
 			res := new(Res)
@@ -481,13 +622,28 @@ func (d *dataRun) ctxCase(feats []string, next string, out map[string]interface{
 			cs.Push("/cxp/two", &Arg{Tag: "two"})
 			WaitUntil(50*time.Millisecond, func() bool { cprobe.mu.Lock(); defer cprobe.mu.Unlock(); return cprobe.obs2 != "" })
 		}
+		settle() // (every hook of the operation has run, its contexts are back in the pool)
 		cprobe.mu.Lock()
 		defer cprobe.mu.Unlock()
+		cprobe.armed = false
+		// what the sending side's write hooks saw is part of the observation
+		reply += " whooks=" + strings.Join(cprobe.w, "; ")
+		if withFirst && cprobe.seen[cprobe.pushCtx] {
+			recycledPush = true
+		}
 		return cprobe.obs2, reply
 	}
 	o1, r1 := run(true)
+	// an outgoing push after previous uses that ended not OK is meant to get a context that one of them used (checked by
+	// the context's address); should the pool have handed out another one, the recycled run is repeated
+	for try := 0; try < 3 && next == "push" && len(bad) > 0 && !recycledPush; try++ {
+		o1, r1 = run(true)
+	}
 	o2, r2 := run(false)
 	out["recycled"] = true
+	if next == "push" && len(bad) > 0 {
+		out["recycled"] = recycledPush
+	}
 	out["equal"] = o1 == o2 && r1 == r2 && !strings.Contains(o1, "stale") && !strings.Contains(r1, "stale")
 	if o1 != o2 || r1 != r2 {
 		out["got"], out["want"] = o1+" | "+r1, o2+" | "+r2
